@@ -49,7 +49,12 @@ func Funcs() vuego.FuncMap {
 		"boom":   func(v any) (any, error) { return nil, ErrBoom },
 		"shout":  func(s string) string { return strings.ToUpper(s) + "!" },
 		"add":    func(a, b int) int { return a + b },
-		"repeat": func(s string, n int) string { return strings.Repeat(s, n) },
+		"repeat": func(s string, n int) string {
+			if n < 0 || n > 100 {
+				n = 0 // a panicking user function is the user's defect, not the engine's
+			}
+			return strings.Repeat(s, n)
+		},
 		"isBig":  func(n int) bool { return n > 10 },
 	}
 }
